@@ -275,6 +275,9 @@ pub fn render_trace(w: &World, cfg: &WorldCfg) -> Vec<String> {
         cfg.fcnt_down0,
         cfg.join_bias
     ));
+    if cfg.small_buffer {
+        out.push(format!("device radio buffer N = {} bytes", crate::script::SMALL_N));
+    }
     for ev in &e.trace {
         out.push(ev.line());
     }
